@@ -303,6 +303,35 @@ func (c consumption) apply(b buffer.Buffer) ([]byte, error) {
 	}
 }
 
+// hangLimit bounds how long one client operation may take before the case
+// is failed as "did not return". It is a deadlock detector, not a budget:
+// operations take well under a millisecond of work, and the only way to
+// report a hang inside real gRPC plumbing as a violation (instead of a
+// timed-out, inconclusive run) is to stop waiting for it.
+const hangLimit = 60 * time.Second
+
+// guard runs one client operation and fails the case if it never returns.
+func guard(t *rapid.T, what string, f func()) {
+	done := make(chan struct{})
+	go func() {
+		defer close(done)
+		f()
+	}()
+	select {
+	case <-done:
+	case <-time.After(hangLimit):
+		buf := make([]byte, 1<<20)
+		buf = buf[:runtime.Stack(buf, true)]
+		var stuck []string
+		for _, g := range strings.Split(string(buf), "\n\n") {
+			if strings.Contains(g, "bb-storage/pkg/blobstore/grpcclients") {
+				stuck = append(stuck, g)
+			}
+		}
+		t.Fatalf("%s did not return within %s; goroutines inside the client:\n%s", what, hangLimit, strings.Join(stuck, "\n\n"))
+	}
+}
+
 type b2bObject struct {
 	inst string
 	fn   fnSpec
@@ -311,6 +340,45 @@ type b2bObject struct {
 }
 
 var recB2B = vstats.New("TestC14BackToBack")
+
+// keys of the findings in the compressed paths of the CAS client
+const (
+	f8Key  = "zstd-client-put-finishes-after-source-error"
+	f9Key  = "zstd-client-put-eof-instead-of-status"
+	f10Key = "zstd-client-get-close-deadlock"
+)
+
+// stopsEarly: the consumption releases the buffer before its end.
+func (c consumption) stopsEarly(size int) bool {
+	return c.method == "Discard" || c.method == "ReadAt" || c.limit >= 0 || c.badArgument(size)
+}
+
+// probeF10 looks for the listed deadlock: discarding a compressed
+// download. It reports whether a goroutine was left behind.
+func probeF10(s *b2bServer, uuids func() (uuid.UUID, error)) bool {
+	data := expand(1, 3000, 3)
+	d := mkDigest("", fnSHA256, data)
+	mem := backends.NewMem("cas", digest.KeyWithoutInstance)
+	mem.Set(d, data)
+	s.cas.set(mem)
+	client := grpcclients.NewCASBlobAccess(s.conn, uuids, 100, pools()[0])
+	for i := 0; i < 300; i++ {
+		done := make(chan struct{})
+		go func() {
+			defer close(done)
+			client.Get(context.Background(), d).Discard()
+		}()
+		select {
+		case <-done:
+		case <-time.After(5 * time.Second):
+			what := fmt.Sprintf("Discard() of a compressed Get buffer did not return (attempt %d): Close() and the download goroutine both call Recv() on the stream", i)
+			recB2B.KnownFinding(f10Key, what)
+			fmt.Printf("KNOWN-FINDING: property=C14 key=%s %s\n", f10Key, what)
+			return true
+		}
+	}
+	return false
+}
 
 // TestC14BackToBack: the repository's CAS/AC clients against its servers
 // over an in-memory connection, compared with the bare back end.
@@ -323,6 +391,14 @@ func TestC14BackToBack(t *testing.T) {
 	}
 	ctx := context.Background()
 	uuids := uuidCounter()
+	f8known := vstats.KnownListed("C14", f8Key)
+	f9known := vstats.KnownListed("C14", f9Key)
+	f10known := vstats.KnownListed("C14", f10Key)
+	leakedByProbe := false
+	if f10known {
+		leakedByProbe = probeF10(servers[0], uuids)
+	}
+	f8printed, f9printed := false, false
 
 	rapid.Check(t, func(t *rapid.T) {
 		vc := recB2B.Begin()
@@ -441,7 +517,8 @@ func TestC14BackToBack(t *testing.T) {
 					wantCode = codes.Unavailable
 				}
 				vc.Add(pk, wrong)
-				err := client.Put(ctx, o.d, b)
+				var err error
+				guard(t, fmt.Sprintf("Put(%s,%s) via server %s (zstd %v)", o.d, pk, s.name, compressed), func() { err = client.Put(ctx, o.d, b) })
 				rendered = append(rendered, fmt.Sprintf("put(#%d,%s)->%s", oi, pk, codeOf(err)))
 				if wantCode == codes.OK {
 					if err != nil {
@@ -453,9 +530,26 @@ func TestC14BackToBack(t *testing.T) {
 					if err == nil {
 						t.Fatalf("Put (%s) of %s for digest %s succeeded through the client (server %s, zstd %v)", pk, short(wrong), o.d, s.name, compressed)
 					}
-					if _, isStatus := status.FromError(err); !isStatus || status.Code(err) != wantCode {
+					if err == io.EOF && compressed && f9known {
+						// listed finding: Send()'s io.EOF reported instead of the server's status
+						if !f9printed {
+							f9printed = true
+							fmt.Printf("KNOWN-FINDING: property=C14 key=%s compressed Put (%s) rejected by the server returned io.EOF instead of the status\n", f9Key, pk)
+						}
+						recB2B.Excluded(f9Key)
+					} else if _, isStatus := status.FromError(err); !isStatus || status.Code(err) != wantCode {
 						t.Fatalf("Put (%s) for digest %s (sent %d bytes) failed with %v (%s), want %s (server %s chunk %d, client chunk %d, zstd %v)",
 							pk, o.d, len(wrong), err, codeOf(err), wantCode, s.name, s.chunk, clientChunk, compressed)
+					}
+					if b, ok := mem.Peek(o.d); ok && !ref.Has(o.d) && bytes.Equal(b, o.data) && compressed && f8known && (pk == "wrong_reader" || pk == "reader_fails") {
+						// listed finding: the failed compressed upload was
+						// finished and the truncated payload is the object
+						if !f8printed {
+							f8printed = true
+							fmt.Printf("KNOWN-FINDING: property=C14 key=%s failed compressed Put (%s) of %s left the object in the back end\n", f8Key, pk, o.d)
+						}
+						recB2B.Excluded(f8Key)
+						ref.Set(o.d, o.data)
 					}
 					mixedOutcomes["put_rejected"] = true
 					vc.Class("put_rejected_" + pk)
@@ -479,8 +573,14 @@ func TestC14BackToBack(t *testing.T) {
 				vc.Class("corrupt")
 			case "get":
 				cm := genConsumption(t, len(o.data))
+				if f10known && compressed && cm.stopsEarly(len(o.data)) {
+					recB2B.Excluded(f10Key)
+					cm = consumption{method: "IntoWriter", limit: -1}
+				}
 				vc.Add(cm.String())
-				got, gerr := cm.apply(client.Get(ctx, o.d))
+				var got []byte
+				var gerr error
+				guard(t, fmt.Sprintf("Get(%s).%s via server %s (zstd %v)", o.d, cm, s.name, compressed), func() { got, gerr = cm.apply(client.Get(ctx, o.d)) })
 				want, werr := cm.apply(ref.Get(ctx, o.d))
 				rendered = append(rendered, fmt.Sprintf("get(#%d,%s)->%s", oi, cm, codeOf(gerr)))
 				compareRead(t, fmt.Sprintf("Get(%s).%s via server %s (client chunk %d, zstd %v)", o.d, cm, s.name, clientChunk, compressed), cm.badArgument(len(o.data)), got, gerr, want, werr)
@@ -504,7 +604,10 @@ func TestC14BackToBack(t *testing.T) {
 				sl := rangeSlicer{from, to}
 				cm := genConsumption(t, len(childData))
 				vc.Add(from, to, cm.String())
-				got, gerr := cm.apply(client.GetFromComposite(ctx, o.d, child, sl))
+				// (the slicer consumes the parent completely: no early release)
+				var got []byte
+				var gerr error
+				guard(t, fmt.Sprintf("GetFromComposite(%s).%s via server %s (zstd %v)", o.d, cm, s.name, compressed), func() { got, gerr = cm.apply(client.GetFromComposite(ctx, o.d, child, sl)) })
 				want, werr := cm.apply(ref.GetFromComposite(ctx, o.d, child, sl))
 				rendered = append(rendered, fmt.Sprintf("composite(#%d,[%d,%d),%s)->%s", oi, from, to, cm, codeOf(gerr)))
 				compareRead(t, fmt.Sprintf("GetFromComposite(%s,[%d,%d)).%s via server %s", o.d, from, to, cm, s.name), cm.badArgument(len(childData)), got, gerr, want, werr)
@@ -524,7 +627,9 @@ func TestC14BackToBack(t *testing.T) {
 				}
 				set := sb.Build()
 				vc.Add(fmt.Sprint(set.Items()))
-				got, gerr := client.FindMissing(ctx, set)
+				var got digest.Set
+				var gerr error
+				guard(t, "FindMissing via server "+s.name, func() { got, gerr = client.FindMissing(ctx, set) })
 				want, werr := ref.FindMissing(ctx, set)
 				rendered = append(rendered, fmt.Sprintf("find(%d)->%s", set.Length(), codeOf(gerr)))
 				if gerr != nil || werr != nil {
@@ -595,7 +700,7 @@ func TestC14BackToBack(t *testing.T) {
 	for runtime.NumGoroutine() > baseline+2 && time.Now().Before(deadline) {
 		time.Sleep(10 * time.Millisecond)
 	}
-	if n := runtime.NumGoroutine(); n > baseline+2 {
+	if n := runtime.NumGoroutine(); n > baseline+2 && !leakedByProbe {
 		buf := make([]byte, 1<<16)
 		buf = buf[:runtime.Stack(buf, true)]
 		t.Fatalf("%d goroutines are still running after closing clients and servers (%d before the test):\n%s", n, baseline, buf)
